@@ -11,6 +11,7 @@ hash carries the md5 of the file's current bytes.  mtimes always move forward by
 usage: index_save.py [N]  (seed from VERIF_SEED) -> JSON report, last line of stdout
 """
 import logging; logging.disable(logging.CRITICAL)  # noqa: E702
+import _memfs  # noqa: E402
 import hashlib, json, os, random, stat, sys, tempfile, time  # noqa: E401
 
 SRC = os.environ.get("PYVC_REPO_SRC", "/repo/src")
@@ -137,6 +138,7 @@ def main():
     rng = random.Random(int(os.environ.get("VERIF_SEED", "1")))
     failures = []
     for i in range(n):
+        _memfs.reset()
         try:
             failures += run_history(rng, i)
         except Exception as e:  # noqa: BLE001
